@@ -19,6 +19,7 @@ from harness import common
 from harness.common import Run, coq_list
 from harness.translate import graphs as tgraphs
 from harness.translate import c15_fromdict as tfromdict
+from harness import c15_defs as cdefs
 
 META = dict(
     technique="Coq theorems (loop invariant of Kahn's algorithm with the path matrix; pigeonhole for completeness) about an executable "
@@ -95,6 +96,22 @@ def oracle(names, anc):
     return dict(reasons=reasons, desc=desc)
 
 
+def case_input(case, **over):
+    """What a failure records (and `replay` reads back)."""
+    d = dict(names=case["names"], anc=case.get("anc"), mode=case.get("mode", "ctor"))
+    for k in ("defs", "var_names"):
+        if k in case:
+            d[k] = case[k]
+    d.update(over)
+    return d
+
+
+def to_wire(c):
+    if c.get("mode") in ("defs", "ctor_keys"):
+        return cdefs.wire(c)
+    return dict(names=c["names"], anc=c["anc"], mode=c.get("mode", "ctor"))
+
+
 def judge(run: Run, case, obs, orc=None):
     """Compare one observation with the property; returns the list of failure signatures (also recorded)."""
     names, anc = case["names"], case["anc"]
@@ -103,7 +120,7 @@ def judge(run: Run, case, obs, orc=None):
 
     def fail(sig, what, expected=None, observed=None):
         sigs.append(sig)
-        run.fail(sig, what, dict(names=names, anc=anc, mode=case.get("mode", "ctor")), expected=expected, observed=observed)
+        run.fail(sig, what, case_input(case, anc=anc), expected=expected, observed=observed)
 
     if "err" in obs:
         # any exception is a refusal; which check fired is a matter for the correspondence, not for the property
@@ -439,7 +456,7 @@ def run_impl(cases, hash_seeds=HASH_SEEDS):
     """Run harness.dagrun in one sub-process per PYTHONHASHSEED (in parallel); returns {seed: [observation]}."""
     tmp = tempfile.mkdtemp(prefix="c15_")
     fin = os.path.join(tmp, "cases.json")
-    json.dump([dict(names=c["names"], anc=c["anc"], mode=c.get("mode", "ctor")) for c in cases], open(fin, "w"))
+    json.dump([to_wire(c) for c in cases], open(fin, "w"))
     procs = []
     for hs in hash_seeds:
         fout = os.path.join(tmp, f"out_{hs}.json")
@@ -464,7 +481,7 @@ def run_impl(cases, hash_seeds=HASH_SEEDS):
 def strip(o):
     """Observation without the free-text message (set reprs inside messages legitimately vary with the hash seed)."""
     if "err" in o:
-        return {"err": o["err"][:2]}
+        return dict(o, err=o["err"][:2])
     return o
 
 
@@ -575,6 +592,139 @@ def check(run: Run, graphs):
                                             has_sources=g["has_sources"]) for g in graphs]
 
 
+# ----------------------------------------------------------------------------- extension 4: from the definitions to the graph
+
+
+def defs_cases(run: Run):
+    thorough = run.tier == "thorough"
+    cases = cdefs.exhaustive_signature_cases(thorough)
+    rng = run.rng("defs")
+    for i in range(6000 if thorough else 1200):
+        if i % 2:
+            base = sampled_case(rng, FAMILIES[(i // 2) % len(FAMILIES)])
+        else:
+            n = rng.randint(2, 4)
+            nm = list(NAMES_A[:n] if rng.random() < 0.5 else NAMES_B[:n])
+            pool = nm + ([UNKNOWN_A] if rng.random() < 0.15 else [])
+            dens = rng.choice([0.2, 0.35, 0.5])
+            anc = {c: [p for p in pool if p != c and rng.random() < dens] for c in nm}
+            if rng.random() < 0.7:      # mostly acyclic: keep only edges going forward along a random permutation
+                perm = list(nm)
+                rng.shuffle(perm)
+                anc = {c: [p for p in anc[c] if p not in perm or perm.index(p) < perm.index(c)] for c in nm}
+            base = dict(names=nm, anc=anc, family=f"small-{n}")
+        cases.append(cdefs.sampled_defs_case(rng, base, defect=(i % 4 == 3)))
+    rng = run.rng("ctor-keys")
+    bases = [sampled_case(rng, FAMILIES[i % len(FAMILIES)]) for i in range(1200 if thorough else 240)]
+    bases += [dict(names=list(NAMES_A[:n]), anc={c: [p for p in NAMES_A[:n] if p < c and rng.random() < 0.6] for c in NAMES_A[:n]}, family="small")
+              for n in (1, 2, 2, 3, 3, 3) for _ in range(10)]
+    cases += cdefs.ctor_keys_cases(rng, bases)
+    return cases
+
+
+def judge_defs(run: Run, c, o):
+    """Property-level verdict on one definitions / key-set case (python only); returns the failure signatures."""
+    sigs = []
+    if c["mode"] == "ctor_keys":
+        if set(c["var_names"]) != set(c["names"]):
+            if "err" not in o:
+                sigs.append("accepts:inconsistent-key-sets")
+                run.fail(sigs[-1], "a graph is built although the keys of `variables` and of `direct_ancestors` differ "
+                         "(a name known only as a key / a parent is silently added or a variable silently dropped)",
+                         case_input(c), expected="refused", observed=dict(order=o["order"]))
+            return sigs
+        return judge(run, c, o)
+    seen = o.get("sigs") or {}
+    for n, d in c["defs"].items():
+        if d is not None and d["form"] in ("def", "lambda") and seen.get(n) != d["sig"]:
+            run.broken("harness:signature", f"inspect.signature reports {seen.get(n)} for a function written as {d['sig']}", kind="broken-correspondence")
+            return ["harness"]
+    exp = {n: cdefs.expected_parents(d, seen.get(n)) for n, d in c["defs"].items()}
+    if any(v is None for v in exp.values()):
+        return sigs            # a function that cannot be given by name only: whether / how it is refused is compared by the model
+    got = o.get("parents")
+    if got is not None:
+        for n in c["names"]:
+            dropped = sorted(set(exp[n]) - set(got[n]))
+            invented = sorted(set(got[n]) - set(exp[n]))
+            for sig, lst, what in (("from_dict:parameter-dropped", dropped, "named parameter(s) %s of the function defining `%s` are not among its direct ancestors"),
+                                   ("from_dict:parent-invented", invented, "direct ancestor(s) %s of `%s` are no named parameter of its function")):
+                if lst:
+                    sigs.append(sig)
+                    run.fail(sig, what % (lst, n), case_input(c, anc=exp), expected=sorted(set(exp[n])), observed=got[n])
+        if "dag_parents" in o and o["dag_parents"] != got:
+            sigs.append("from_dict:ancestors-differ-from-declared")
+            run.fail(sigs[-1], "dag.direct_ancestors differs from what the variables' get_ancestors_names() return", case_input(c, anc=exp),
+                     expected=got, observed=o["dag_parents"])
+    return sigs + judge(run, dict(c, anc=exp), o)
+
+
+def check_defs(run: Run, graphs):
+    t = time.time()
+    cases = defs_cases(run)
+    res, errs = run_impl(cases)
+    run.log(f"from_dict / key-set: {len(cases)} definition cases run under {len(res)} hash seeds in {time.time() - t:.1f}s")
+    for e in errs:
+        run.broken("impl-runner:defs", e, kind="broken-correspondence")
+    if not res:
+        return
+    base_seed = HASH_SEEDS[0] if HASH_SEEDS[0] in res else sorted(res)[0]
+    base = res[base_seed]
+    for hs, obs in res.items():
+        for i, (a, b) in enumerate(zip(base, obs)):
+            if hs != base_seed and strip(a) != strip(b):
+                run.fail("nondeterministic:hash-seed", f"result differs between PYTHONHASHSEED={base_seed} and {hs}",
+                         case_input(cases[i], hash_seeds=[base_seed, hs]), expected=strip(a), observed=strip(b))
+    lits = {"defs": {}, "ctor_keys": {}}
+    judged = {}
+    for i, (c, o) in enumerate(zip(cases, base)):
+        judged[i] = judge_defs(run, c, o)
+        try:
+            lit = cdefs.defs_literal(c, o) if c["mode"] == "defs" else cdefs.ctor_literal(c, o)
+        except KeyError as e:
+            run.fail("result:foreign-name", f"the result mentions a name that is not a variable: {e}", case_input(c), observed=strip(o))
+            continue
+        code = o["err"][1] if "err" in o else 0
+        run.case(("defs", lit), nontrivial=True)
+        run.count("family", c["family"])
+        run.count("mode", c["mode"])
+        run.count("outcome", {0: "ok", 1: "refused:unknown-ref", 2: "refused:self-loop", 3: "refused:isolated", 4: "refused:not-a-dag",
+                              7: "refused:inconsistent-keys", 8: "refused:not-keyword-only"}.get(code, f"refused:other:{o.get('err', ['?'])[0]}"))
+        for f in c.get("forms", []):
+            run.count("function form (defs)", f)
+        lits[c["mode"]].setdefault(lit, []).append(i)
+    for fam in ("defs:exhaustive-signature", "defs:diamond-late-root", "ctor-keys:both"):
+        for i, c in enumerate(cases):
+            if c["family"] == fam and (fam != "defs:exhaustive-signature" or len(c["defs"]["v"]["sig"]) == 2):
+                run.sample(dict(case_input(c), family=fam, observed=strip(base[i])))
+                break
+    shipped = {}
+    for g in graphs or []:
+        if "defs" in g:
+            shipped.setdefault(cdefs.shipped_literal(g), []).append(g["label"])
+    t = time.time()
+    for mode, ctype, checker, extra in (("defs", "(list vdef * observed * list (list nat))", "from_dict_agrees", list(shipped)),
+                                        ("ctor_keys", "(list nat * graph * observed)", "ctor_agrees", [])):
+        keys = list(lits[mode]) + extra
+        bad = run.vm_bad_indices(checker, cdefs.HDR, ctype, keys, checker, shard=300)
+        run.extra[f"distinct_{mode}_cases_evaluated_in_coq"] = len(keys)
+        if bad:
+            unexplained = [i for b in bad if keys[b] in lits[mode] for i in lits[mode][keys[b]] if not judged[i]]
+            labels = [lab for b in bad if keys[b] in shipped for lab in shipped[keys[b]]]
+            detail = f"{len(bad)} distinct cases on which the implementation and Dag.FromDict.{checker[:-7]} disagree"
+            if labels:
+                detail += f"; shipped models: {labels[:4]}"
+            if unexplained:
+                i = min(unexplained, key=lambda k: len(json.dumps(to_wire(cases[k]))))
+                detail += f"; {len(unexplained)} are not property failures by the oracle, smallest: {json.dumps(to_wire(cases[i]))} observed={strip(base[i])}"
+            elif not labels:
+                i = lits[mode][keys[bad[0]]][0]
+                detail += f"; all of them are property failures reported above, e.g. {json.dumps(to_wire(cases[i]))[:600]}"
+            run.broken(f"correspondence:{checker[:-7]}", detail, kind="broken-correspondence")
+    run.extra["shipped_definitions_evaluated_in_coq"] = len(shipped)
+    run.log(f"from_dict / ctor models evaluated inside Coq in {time.time() - t:.1f}s")
+
+
 def main(run: Run):
     ok_t = translate(run)
     graphs = _GRAPHS_CACHE.get("graphs")
@@ -589,6 +739,7 @@ def main(run: Run):
                        "tied to dag.py by running both on the same graphs and comparing inside Coq; an independent DFS oracle turns any "
                        "disagreement that matters into a concrete failing graph.")
     check(run, graphs)
+    check_defs(run, graphs)
     return run.finish()
 
 
